@@ -633,7 +633,17 @@ impl ImageXObject {
                 }).unwrap_or(filters.len());
                 
                 let (normal_filters, image_filters) = filters.split_at(end);
-                let data = resolve.get_data_or_decode(id, file_range.clone(), normal_filters)?;
+                let data = if image_filters.is_empty() {
+                    resolve.get_data_or_decode(id, file_range.clone(), normal_filters)?
+                } else {
+                    // a partial decode must not go through the stream cache: its slot is keyed by the
+                    // stream alone and belongs to the fully decoded data (Stream::data)
+                    let mut data = resolve.stream_data(id, file_range.clone())?.to_vec();
+                    for filter in normal_filters {
+                        data = decode(&data, filter)?;
+                    }
+                    data.into()
+                };
         
                 match image_filters {
                     [] => Ok((data, None)),
